@@ -96,8 +96,8 @@ class T(object):
         if k == 'tuple':
             return VTuple([t.make('%s.%d' % (name, i), st, bv) for i, t in enumerate(self.kw['items'])])
         if k == 'const':
-            from .values import _lift
-            return _lift(self.kw['value'])
+            from .executor import lift_py
+            return lift_py(self.kw['value'])
         if k == 'obj':
             o = st.alloc(self.kw.get('cls'))
             st.fresh_objs.discard(o.oid)          # a parameter object is not fresh
